@@ -861,6 +861,29 @@ func (env *Env) callExpr(n *ast.CallExpr) SV {
 			}
 		}
 		sfail("callarg: no call to %s", name)
+	case "called":
+		// called("C[#k]"): this execution passed through a call to C made by the function under
+		// contract (the disjunction of the sites' reachability conditions)
+		name, _ := strconv.Unquote(n.Args[0].(*ast.BasicLit).Value)
+		if x.trace == nil {
+			sfail("called needs a trace")
+		}
+		want := 0
+		if h := strings.LastIndex(name, "#"); h >= 0 {
+			if k, err := strconv.Atoi(name[h+1:]); err == nil {
+				want, name = k, name[:h]
+			}
+		}
+		var rs []string
+		for _, c := range x.trace.calls {
+			if c.Depth == 0 && calleeMatch(name, c.Callee) && (want == 0 || c.Ord == want) {
+				rs = append(rs, c.Reach)
+			}
+		}
+		if len(rs) == 0 {
+			return svBool("false")
+		}
+		return svBool(or(rs...))
 	case "callres":
 		name, _ := strconv.Unquote(n.Args[0].(*ast.BasicLit).Value)
 		if x.trace == nil {
